@@ -76,8 +76,8 @@ EvWin == /\ Ev("win")
                             /\ Digits(r.got2) = (IF r.n2 < Len(w2) THEN <<w2[r.n2 + 1]>> ELSE <<>>)
                             /\ Digits(r.rest2) = From(w2, r.n2 + 2) /\ His(r.got2) \subseteq {A.k + 1} /\ His(r.rest2) \subseteq {A.k + 1}
                             /\ Digits(r.skip) = From(w1, r.n + 1) /\ His(r.skip) \subseteq {A.k}
-                            /\ Digits(r.step) = Every(w1, r.n + 1)
-                            /\ Digits(r.last) = (IF Len(sk) = 0 THEN <<>> ELSE <<sk[Len(sk)]>>)
+                            /\ Digits(r.step) = Every(w1, r.n + 1) /\ His(r.step) \subseteq {0}
+                            /\ Digits(r.last) = (IF Len(sk) = 0 THEN <<>> ELSE <<sk[Len(sk)]>>) /\ His(r.last) \subseteq {0}
                             /\ r.count = Len(From(w1, r.n + 1)), <<l, "win-nth-skip-step">>)
                (* candidate <=> recorded index window sets intersect, on recorded values *)
          /\ Stateless
